@@ -219,6 +219,8 @@ type c19Pipe struct {
 	obs  ro.Observable[int]
 	recs []*Rec
 	hs   []*SubHandle
+	// onRec, when set, prepares each recorder before it subscribes
+	onRec func(r *Rec)
 }
 
 func c19BuildOps(e *Env, stages []StageSpec) []c19Op {
@@ -308,6 +310,9 @@ func c19Drive(e *Env, pipes []*c19Pipe, between ...func(i int)) bool {
 	for i := 0; i < subs; i++ {
 		for _, p := range pipes {
 			rec := e.NewRec(fmt.Sprintf("%s%d", p.name, i))
+			if p.onRec != nil {
+				p.onRec(rec)
+			}
 			p.recs = append(p.recs, rec)
 			p.hs = append(p.hs, e.Subscribe(p.obs, rec.Observer(), ctx))
 		}
@@ -764,6 +769,46 @@ func runC19Counters(e *Env) {
 		return p
 	}
 	plain, probe, instr := build("plain"), build("probe"), build("instr")
+
+	// The counters are exact at every moment a subscriber can look at them: a stand-alone operator at the
+	// tail of the chain (nothing but other stand-alone operators after it) has counted an event by the time
+	// the subscriber is told about it. Read from inside the subscriber's callbacks.
+	tail := len(sc.Stages)
+	for tail > 0 && c19IsProm(sc.Stages[tail-1].Op) {
+		tail--
+	}
+	if licence && tail < len(sc.Stages) {
+		delivered := map[byte]int{}
+		look := func(k byte) {
+			delivered[k]++
+			got, err := c19Gather(reg)
+			if err != nil {
+				panic(fmt.Sprintf("C19: gathering the harness's own counters failed: %v", err))
+			}
+			for i := tail; i < len(sc.Stages); i++ {
+				var want byte
+				switch sc.Stages[i].Op {
+				case c19PromNext:
+					want = 'N'
+				case c19PromError:
+					want = 'E'
+				case c19PromComplete:
+					want = 'C'
+				}
+				// (the lag operator measures the time the downstream takes: it observes afterwards)
+				if want != k {
+					continue
+				}
+				if v := got.val[keys[i]]; v < float64(delivered[k]) {
+					e.Violate("C19", "standalone-behind-delivery", fmt.Sprintf("%s at position %d (tail of the chain): while the subscriber is being told about its %s event number %d, %s = %v: the exported counter does not contain that event yet", sc.Stages[i].Op, i, string(k), delivered[k], keys[i], v))
+				}
+			}
+		}
+		instr.onRec = func(r *Rec) {
+			r.OnNextHook = func(*Rec, int) { look('N') }
+			r.OnTermHook = func(_ *Rec, k byte) { look(k) }
+		}
+	}
 
 	if !c19Drive(e, []*c19Pipe{plain, probe, instr}) {
 		return
